@@ -171,7 +171,9 @@ class Request(HTTPConnection):
                 return json.loads(
                     data.decode(self.content_type.options.get("charset", "utf8"))
                 )
-            except json.JSONDecodeError as exc:
+            except (ValueError, LookupError) as exc:
+                # JSONDecodeError and UnicodeDecodeError are ValueErrors, so is the
+                # refusal of over-long numbers; LookupError is an unknown charset
                 raise MalformedJSON(str(exc)) from None
 
         raise UnsupportedMediaType("application/json")
